@@ -40,9 +40,12 @@ def register(I, R):
     def bits_of(v, st):
         v = deref_all(I, v, st)
         if isinstance(v, Adt) and v.ty in ("Mode", "SFlag"):
-            return v.fields[0]
+            b = v.fields[0]
+            if isinstance(b, Union):
+                b = merge_many([(g, z3.BitVecVal(x, W) if isinstance(x, int) else x) for g, x in b.alts])
+            return b
         if isinstance(v, Union):
-            return merge_many([(g, bits_of(x, st)) for g, x in v.alts])
+            return merge_many([(g, (lambda y: z3.BitVecVal(y, W) if isinstance(y, int) else y)(bits_of(x, st))) for g, x in v.alts])
         raise Unsupported("not a flags value: %r" % (v,))
 
     def all_bits(ty):
